@@ -588,7 +588,7 @@ func runC12(c *Ctx) {
 			fn := p.Fn(ipv4, spec.fn)
 			prm := map[string]*ssa.Parameter{}
 			for _, q := range fn.Params {
-				prm[q.Name()] = q
+				prm[pinParamName(q)] = q
 			}
 			fill := map[string]string{}
 			body := fn
@@ -818,12 +818,12 @@ func runC12(c *Ctx) {
 				a := calls[0].Common().Args
 				byName := map[string]*ssa.Parameter{}
 				for _, q := range fn.Params {
-					byName[q.Name()] = q
+					byName[pinParamName(q)] = q
 				}
 				callee := p.Fn(ipv4, spec.callee)
 				for i, q := range callee.Params {
-					if q.Name() == "multicastIP" || q.Name() == "sourceIP" {
-						if src := byName[q.Name()]; src == nil || stripConv(a[i]) != ssa.Value(src) {
+					if pinParamName(q) == "multicastIP" || pinParamName(q) == "sourceIP" {
+						if src := byName[pinParamName(q)]; src == nil || stripConv(a[i]) != ssa.Value(src) {
 							// joinIPv6-style different names: accept `ip`
 							good = false
 						}
